@@ -151,6 +151,26 @@ func runC13(r *Report) {
 			r.Ob("R-C13-4", CallPos(lr), isC && cnt == 0, "RemoveFromList removes all occurrences of the member (LREM count 0), like the memory backend", r.P.FuncName(f), "lrem-all")
 		}
 	}
+	// SetList replaces the list: every success return of the Redis implementation has passed the
+	// clearing DEL (a SetList of an empty list that returns before the DEL leaves the old members,
+	// while the memory backend stores the empty list)
+	if sl := r.P.Fn(redisPkg, "Storage.SetList"); sl != nil {
+		isDel := func(in ssa.Instruction) bool {
+			ci, ok := in.(ssa.CallInstruction)
+			return ok && (CalleeOf(ci).Name == "Del" || CalleeOf(ci).Name == "Unlink")
+		}
+		n := 0
+		for _, ret := range Returns(sl) {
+			if RetErrKind(ret) == "nonnil" {
+				continue
+			}
+			n++
+			r.Ob("R-C13-4", ret.Pos(), !ReachesWithout(sl, ret, func(in ssa.Instruction) bool { return isDel(in) || (in.Parent() == sl && performsVia(in, isDel, nil)) }), "Redis SetList clears the previous list (DEL) on every path that reports success, also for an empty new list", "redis.Storage.SetList", "setlist-clears")
+		}
+		if n == 0 {
+			r.Fail("R-C13-4", sl.Pos(), "no success return found in Redis SetList", "redis.Storage.SetList", "setlist-clears:anchor")
+		}
+	}
 
 	// ---- R-C13-5 expired entries are absent / expiry-driven deletes re-validate ---
 	for _, f := range r.P.FuncsIn(memPkg) {
